@@ -815,23 +815,38 @@ func guardedIndirectly(c *Ctx, pa *provAnalysis, fn *ssa.Function, at ssa.Instru
 	// the fields come from a table built in this function whose rows are each
 	// inserted behind a non-emptiness test of their own field (archlinux)
 	covered := map[string]bool{}
+	// the table may also be built by a module helper this function calls
+	// (a function that returns the map)
+	builders := []*ssa.Function{fn}
 	forEachInstr(fn, func(in ssa.Instruction) {
-		mu, ok := in.(*ssa.MapUpdate)
-		if !ok {
-			return
-		}
-		rf := scriptAtoms(pa.Of(mu.Value))
-		if len(rf) == 0 {
-			return
-		}
-		// one row guarded by its own field, or a loop over a table of rows
-		// guarded by the row's own value
-		if ok, _ := directGuard(c, pa, fn, mu, rf); ok {
-			for _, f := range rf {
-				covered[f] = true
+		if call, ok := in.(*ssa.Call); ok {
+			if sc := call.Call.StaticCallee(); sc != nil && c.isModuleFunc(sc) && len(sc.Blocks) > 0 && sc.Signature.Results().Len() == 1 {
+				if _, isMap := sc.Signature.Results().At(0).Type().Underlying().(*types.Map); isMap {
+					builders = append(builders, sc)
+				}
 			}
 		}
 	})
+	for _, bf := range builders {
+		bf := bf
+		forEachInstr(bf, func(in ssa.Instruction) {
+			mu, ok := in.(*ssa.MapUpdate)
+			if !ok {
+				return
+			}
+			rf := scriptAtoms(pa.Of(mu.Value))
+			if len(rf) == 0 {
+				return
+			}
+			// one row guarded by its own field, or a loop over a table of rows
+			// guarded by the row's own value
+			if ok, _ := directGuard(c, pa, bf, mu, rf); ok {
+				for _, f := range rf {
+					covered[f] = true
+				}
+			}
+		})
+	}
 	all := len(fields) > 0
 	for _, f := range fields {
 		if !covered[f] {
